@@ -62,6 +62,8 @@ pub fn nested_pool() -> Vec<SelSpec> {
         havings: vec![CondS::One(XS::Bin(BOp::Gt, bx(XS::CountStar), bx(XS::Val(V::Int(0)))))],
         ..Default::default()
     });
+    // R4: the "top n" idiom - ordered and limited, no offset (what the rows are depends on the ORDER BY)
+    v.push(SelSpec { items: vec![Item::Expr(XS::Col("t1_id"), None)], from: vec![FromItem::Table("t2")], orders: vec![(XS::Col("id"), OrderK::Plain(true))], limit: Some(2), ..Default::default() });
     v
 }
 
@@ -107,6 +109,7 @@ pub fn select_menu(thorough: bool, sqlite_only: bool) -> Vec<SelOp> {
     m.push(SelOp::Where(CondS::All(vec![])));
     m.push(SelOp::Where(CondS::One(XS::InSub(bx(XS::Col("b")), bx(r[0].clone())))));
     m.push(SelOp::Where(CondS::One(XS::Exists(bx(r[0].clone())))));
+    m.push(SelOp::Where(CondS::One(XS::InSub(bx(XS::Col("id")), bx(r[4].clone())))));
     m.push(SelOp::Group(XS::Col("a")));
     m.push(SelOp::Group(XS::Col("s")));
     m.push(SelOp::Having(CondS::One(XS::Bin(BOp::Gt, bx(XS::CountStar), bx(XS::Val(V::Int(1)))))));
